@@ -101,6 +101,8 @@ def run_case(desc):
         X = rng.rand(n, d)
     else:
         X = streams.feature_stream(rng, n, d, desc["stream"])
+        if (desc["seed"] >> 15) % 4 == 0:
+            X = X.astype(np.float32)          # single-precision instances are legal input
         U = None
     chunks = streams.chunking(rng, n, desc["chunking"])
     clf = None
